@@ -248,3 +248,49 @@ Theorem C10_nll_hypotheses_satisfiable :
   (forall bs, In bs samples -> count_basis [[LZ]; [LX]] (fst bs) = 1%nat).
 Proof. exact nll_hyps_satisfiable. Qed.
 Print Assumptions C10_nll_hypotheses_satisfiable.
+
+(* ---------------------------------------------------------------------------------------------
+   Links to C04 / C01 / C02 (QTheory.KronR, Born, Rho; proofs: QTheory.Links, module L4).
+   [basis_ok user n b]: b has n letters and every per-site matrix of b in the dictionary is unitary
+   (QTheory.KronR.unitary2: U U^dagger = I) — true for EVERY string over the default dictionary X, Y, Z.
+   For the model's own states (tables over all 2^n basis states, Z = the state's normalisation) C04's
+   norm / trace preservation makes the model-side Born distribution sum to one in every such basis,
+   which discharges the "both distributions sum to 1" hypothesis of C10_kl_nonneg_pure / _mixed:
+   KL >= 0 for any target whose distribution sums to one; only the in-range hypotheses remain. *)
+From QTheory Require KronR Links.
+Import Links.L4.
+
+Theorem C10_kl_nonneg_model_wavefunctions : forall user (am ph : brbm) n tgt bases,
+  (forall b, In b bases -> basis_ok user n b) ->
+  (forall b, In b bases -> sum ROps (target_dist_pure tgt b) = 1) ->
+  let Z := normalization ROps am (all_bits n) in
+  let pc := map (cplx_psi ROps am ph) (all_bits n) in       (* ComplexWaveFunction *)
+  let pp := map (pos_psi ROps am) (all_bits n) in           (* PositiveWaveFunction *)
+  ((forall b, In b bases -> dists_ok (target_dist_pure tgt b) (model_dist_pure user pc Z b)) ->
+   (forall b, In b bases -> sum ROps (model_dist_pure user pc Z b) = 1) /\
+   0 <= fst (kl_bases_pure ROps user tgt pc Z bases)) /\
+  ((forall b, In b bases -> dists_ok (target_dist_pure tgt b) (model_dist_pure user pp Z b)) ->
+   (forall b, In b bases -> sum ROps (model_dist_pure user pp Z b) = 1) /\
+   0 <= fst (kl_bases_pure ROps user tgt pp Z bases)).
+Proof. exact Links.L4.kl_nonneg_wavefunctions. Qed.
+Print Assumptions C10_kl_nonneg_model_wavefunctions.
+
+(* density matrix: the rotated probabilities sum to tr rho, which C02 identifies with dm_normalization
+   (the two length hypotheses are C02's shape guards) *)
+Theorem C10_kl_nonneg_model_density_matrix : forall user (am ph : prbm) n tgt bases,
+  length (pU am) = length (pd am) -> length (pU ph) = length (pU am) ->
+  (forall b, In b bases -> basis_ok user n b) ->
+  (forall b, In b bases -> sum ROps (tgt b) = 1) ->
+  let Z := dm_normalization ROps am (all_bits n) in
+  let rho := dm_rho ROps am ph in
+  (forall b, In b bases -> dists_ok (tgt b) (model_dist_mixed user rho Z (all_bits n) b)) ->
+  (forall b, In b bases -> sum ROps (model_dist_mixed user rho Z (all_bits n) b) = 1) /\
+  0 <= fst (kl_bases_mixed ROps user tgt rho Z (all_bits n) bases).
+Proof. exact Links.L4.kl_nonneg_density_matrix. Qed.
+Print Assumptions C10_kl_nonneg_model_density_matrix.
+
+Theorem C10_default_bases_are_ok : forall user n (b : list letter),
+  (length b = n /\ Forall KronR.unitary2 (map (lookup ROps user) b) <-> basis_ok user n b) /\
+  (length b = n -> Forall (fun a => match a with LU _ => False | _ => True end) b -> basis_ok user n b).
+Proof. exact (fun user n b => conj (iff_refl _) (Links.L4.default_basis_ok user n b)). Qed.
+Print Assumptions C10_default_bases_are_ok.
